@@ -91,18 +91,18 @@ def mergeLoop (ns : Range) : List Range → Range × List Range
 def growTo (data : List Cell) (n : Nat) : List Cell :=
   if data.length < n then data ++ List.replicate (n - data.length) none else data
 
-/-- `IpDefragBuf::add(offset, more_fragments, payload)`; `fo` is the `IpFragOffset` value (units of
-    8 bytes, ≤ 8191 by the type's invariant).  All `return Err` of the Rust function come before
-    the first mutation of `self`, so an error leaves the buffer as it was (the caller keeps `b`). -/
-def Buf.add (b : Buf) (fo : Nat) (mf : Bool) (payload : Bytes) : Except Err Buf :=
+/-- first half of `IpDefragBuf::add(offset, more_fragments, payload)`: the validation.  `fo` is the
+    `IpFragOffset` value (units of 8 bytes, ≤ 8191 by the type's invariant).  Every `return Err` of
+    the Rust function comes before the first mutation of `self`. -/
+def Buf.addCheck (b : Buf) (fo : Nat) (mf : Bool) (payload : Bytes) : Option Err :=
   let off := fo * 8
   let len := payload.length
   -- u16::try_from(payload.len())
-  if len > maxLen then .error (.segmentTooBig fo len maxLen)
+  if len > maxLen then some (.segmentTooBig fo len maxLen)
   -- offset.byte_offset().checked_add(len_u16)
-  else if off + len > maxLen then .error (.segmentTooBig fo len maxLen)
+  else if off + len > maxLen then some (.segmentTooBig fo len maxLen)
   -- payload len multiple of 8 unless it is the end
-  else if mf = true ∧ len % 8 ≠ 0 then .error (.unalignedFragmentPayloadLen fo len)
+  else if mf = true ∧ len % 8 ≠ 0 then some (.unalignedFragmentPayloadLen fo len)
   else
     let stop := off + len
     -- check the section is not already ended
@@ -111,26 +111,34 @@ def Buf.add (b : Buf) (fo : Nat) (mf : Bool) (payload : Bytes) : Except Err Buf 
              if previousEnd < stop ∨ (mf = false ∧ stop ≠ previousEnd) then
                some (Err.conflictingEnd previousEnd stop) else none
            | none => none) with
-    | some e => .error e
+    | some e => some e
     | none =>
-    -- check that no already received section is located after the new end
-    match (if mf = false then
-             match maxStop b.sections with
-             | some maxEnd => if maxEnd > stop then some (Err.conflictingEnd maxEnd stop) else none
-             | none => none
-           else none) with
-    | some e => .error e
-    | none =>
-      -- get enough memory, insert new data
-      let data := writeAt (growTo b.data stop) off payload
-      -- update sections
-      let m := mergeLoop { start := off, stop := stop } b.sections
-      let sections := m.2 ++ [m.1]
-      -- set end
+      -- check that no already received section is located after the new end (commit a44b17c)
       if mf = false then
-        .ok { ipNumber := b.ipNumber, data := data.take stop, sections := sections, endKnown := some stop }
-      else
-        .ok { ipNumber := b.ipNumber, data := data, sections := sections, endKnown := b.endKnown }
+        match maxStop b.sections with
+        | some maxEnd => if maxEnd > stop then some (Err.conflictingEnd maxEnd stop) else none
+        | none => none
+      else none
+
+/-- second half of `add`: the mutation (runs only if the validation passed). -/
+def Buf.addCore (b : Buf) (fo : Nat) (mf : Bool) (payload : Bytes) : Buf :=
+  let off := fo * 8
+  let stop := off + payload.length
+  -- get enough memory (set_len), insert new data
+  let data := writeAt (growTo b.data stop) off payload
+  -- update sections: merge connected sections into the new one, push it
+  let m := mergeLoop { start := off, stop := stop } b.sections
+  -- set end: `self.end = Some(end); self.data.set_len(end)` for a last fragment
+  { ipNumber := b.ipNumber,
+    data := if mf = false then data.take stop else data,
+    sections := m.2 ++ [m.1],
+    endKnown := if mf = false then some stop else b.endKnown }
+
+/-- `IpDefragBuf::add`; an error leaves the buffer as it was (the caller keeps `b`). -/
+def Buf.add (b : Buf) (fo : Nat) (mf : Bool) (payload : Bytes) : Except Err Buf :=
+  match b.addCheck fo mf payload with
+  | some e => .error e
+  | none => .ok (b.addCore fo mf payload)
 
 /-- `IpDefragBuf::is_complete` -/
 def Buf.isComplete (b : Buf) : Bool :=
